@@ -64,6 +64,16 @@ func decCompare(c *h.Ctx, kind string, x []byte) string {
 		if _, isCtl := m.(*ast.ControlMessage); !isCtl || m.Type() != ref.STypeName(rm.PType, rm.SType) || !bytes.Equal(m.ToBytes(), want) {
 			c.Fail("control-misdecoded", decIn(kind, x), fmt.Sprintf("Type()=%s ToBytes()=%x", m.Type(), m.ToBytes()))
 		}
+		for j := range x {
+			x[j] ^= 0xFF
+		}
+		got, typ := m.ToBytes(), m.Type()
+		for j := range x {
+			x[j] ^= 0xFF
+		}
+		if !bytes.Equal(got, want) || typ != ref.STypeName(rm.PType, rm.SType) {
+			c.Fail("decoded-message-follows-the-receive-buffer:control", decIn(kind, x), fmt.Sprintf("after the input buffer was overwritten: Type()=%s ToBytes()=%x", typ, got))
+		}
 		return "accept-control"
 	}
 	dm, isData := m.(*ast.DataMessage)
@@ -90,6 +100,21 @@ func decCompare(c *h.Ctx, kind string, x []byte) string {
 		return "bad"
 	}
 	c.Ops(2)
+	// the decoded message is a value: it still denotes the decoded bytes when the receive buffer is used again
+	// (every byte of the input complemented in place, observed, restored)
+	want := ref.EncodeMsg(rm)
+	for j := range x {
+		x[j] ^= 0xFF
+	}
+	got, sys, gb := dm.ToBytes(), dm.SystemBytes(), body(dm.String())
+	for j := range x {
+		x[j] ^= 0xFF
+	}
+	c.Ops(1)
+	if !bytes.Equal(got, want) || !bytes.Equal(sys, rm.System[:]) || gb != wantBody {
+		c.Fail("decoded-message-follows-the-receive-buffer:"+kind, decIn(kind, x), fmt.Sprintf("after the input buffer was overwritten: ToBytes()=%s want %s; SystemBytes()=%x", h.Hex(truncB(got, 64)), h.Hex(truncB(want, 64)), sys))
+		return "bad"
+	}
 	return "accept-data"
 }
 
